@@ -484,8 +484,12 @@ def gen_sim(r: Any) -> dict:
         x = r.random()
         if x < 0.5:
             steps.append([r.choice(['ns+', 'ns-']), r.choice(SIM_NS_POOL)])
-        elif x < 0.75:
+        elif x < 0.65:
             steps.append([r.choice(['kind+', 'kind-']), r.choice(['ct', 'nk'])])
+        elif x < 0.85:
+            # the CRD stays but is MODIFIED so that the selector matching flips: category / short name / verbs
+            k = r.choice(['ct', 'nk'])
+            steps.append(['crd~', k, r.choice(['sel-', 'sel-', 'sel+', 'verbs-', 'verbs+'])])
         else:
             steps.append(['end', r.choice(['eof', 'connection', 'timeout'])])     # every open stream reconnects (no re-list)
     # the version counter starts just below a power of ten: versions gain a digit while the streams are open
@@ -497,12 +501,41 @@ def run_sim(case: dict) -> list[dict]:
     """One kopf.operator() incarnation (scanning enabled) under kv.sim; namespaces and CRDs come and go.
     Returns, after every step, the open watch streams of the served kinds and the harness's reading of the served pairs."""
     from kv import fakeapi, sim
+    import kopf
     kinds = _sim_kinds()
     present = {'k'} | set(case['init_kinds'])
     W = sim.World(kinds=[kinds[k] for k in sorted(present)])
     api = W.api
     api.rv = int(case.get('rv0', 100))
     out: list[dict] = []
+    # what the discovery says about the two custom kinds NOW (the CRD can be modified while it exists):
+    # `nk` is selected by its category only, `ct` by its short name only, `k` by its full name
+    full = ('list', 'watch', 'patch', 'get', 'create', 'delete')
+    attrs = {'ct': {'selected': True, 'verbs': full}, 'nk': {'selected': True, 'verbs': full}}
+    plural_of = {kinds[x].plural: x for x in attrs}
+    orig_discovery = api._discovery
+
+    def discovery(group: str, version: str) -> Any:
+        resp = orig_discovery(group, version)
+        if resp.status == 200:
+            for res in resp._payload['resources']:
+                x = plural_of.get(res['name'])
+                if x is not None:
+                    res['verbs'] = list(attrs[x]['verbs'])
+                    res['categories'] = ['c19cat'] if x == 'nk' and attrs[x]['selected'] else []
+                    res['shortNames'] = ['cth'] if x == 'ct' and attrs[x]['selected'] else []
+        return resp
+    api._discovery = discovery      # type: ignore[method-assign]
+    revision = [0]
+    orig_build = sim.build_registry
+
+    def build(world: Any, inc_: Any, handlers_: list, kind: Any) -> Any:
+        reg = orig_build(world, inc_, [h for h in handlers_ if 'c19_selector' not in h], kind)
+        for h in handlers_:
+            if 'c19_selector' in h:
+                args, kw = h['c19_selector']
+                kopf.on.event(*args, **kw, id=h['id'], registry=reg)(sim.make_handler(world, inc_, h))
+        return reg
     try:
         for ns in case['init_ns']:
             api.create(fakeapi.NAMESPACE, None, ns)
@@ -512,9 +545,13 @@ def run_sim(case: dict) -> list[dict]:
         def conf(s: Any) -> None:
             s.scanning.disabled = False
             s.watching.reconnect_backoff = 0.125
-        handlers = [{'id': 'ev_k', 'kind': 'event'}, {'id': 'ev_ct', 'kind': 'event', 'resource': kinds['ct']},
-                    {'id': 'ev_nk', 'kind': 'event', 'resource': kinds['nk']}]
-        inc = W.operator('op', handlers, namespaces=None if case['clusterwide'] else ['ns*'], configure=conf).start()
+        handlers = [{'id': 'ev_k', 'kind': 'event'}, {'id': 'ev_ct', 'kind': 'event', 'c19_selector': (('cth',), {})},
+                    {'id': 'ev_nk', 'kind': 'event', 'c19_selector': ((), {'category': 'c19cat'})}]
+        sim.build_registry = build
+        try:
+            inc = W.operator('op', handlers, namespaces=None if case['clusterwide'] else ['ns*'], configure=conf).start()
+        finally:
+            sim.build_registry = orig_build
         W.run_for(4)
 
         def snap(step: Any) -> dict:
@@ -525,11 +562,21 @@ def run_sim(case: dict) -> list[dict]:
                     key = f'{st.kind.plural}|{st.namespace}'
                     table[key] = table.get(key, 0) + 1
             return {'step': step, 'namespaces': nss, 'kinds': sorted(present), 'table': dict(sorted(table.items())),
+                    'latest_scan': {x: {'selected': attrs[x]['selected'], 'verbs': sorted(attrs[x]['verbs'])} for x in sorted(attrs)},
                     'operator': inc.state, 'exception': repr(inc.exception) if inc.exception else None}
         out.append(snap('start'))
         for step in case['steps']:
-            a, x = step
-            if a == 'ns+' and api.get(fakeapi.NAMESPACE, None, x) is None:
+            a, x = step[0], step[1]
+            if a == 'crd~':
+                how = step[2]
+                if how in ('sel-', 'sel+'):
+                    attrs[x]['selected'] = how == 'sel+'
+                else:
+                    attrs[x]['verbs'] = full if how == 'verbs+' else tuple(v for v in full if v != 'watch')
+                if x in present:       # the CRD object changes: a MODIFIED event on the CRD stream, kopf re-scans the group
+                    revision[0] += 1
+                    api.merge_edit(fakeapi.CRD, None, f'{kinds[x].plural}.{kinds[x].group}', {'spec': {'revision': revision[0]}})
+            elif a == 'ns+' and api.get(fakeapi.NAMESPACE, None, x) is None:
                 api.create(fakeapi.NAMESPACE, None, x)
             elif a == 'ns-':
                 api.delete(fakeapi.NAMESPACE, None, x)
@@ -600,6 +647,11 @@ def monitor_sim(case: dict, snaps: list[dict]) -> tuple[list[dict], list[str]]:
         undetermined = set()
         for k in s['kinds']:
             kd = kinds[k]
+            scan = s.get('latest_scan', {}).get(k)
+            # documented selector semantics on the LATEST scan only: the category / short name must still be there,
+            # and a kind that cannot be listed and watched is not served
+            if scan is not None and not (scan['selected'] and {'list', 'watch'} <= set(scan['verbs'])):
+                continue
             if kd.namespaced:
                 for ns in served_ns:
                     want[f'{kd.plural}|{ns}'] = 1
@@ -627,8 +679,16 @@ def sim_layer(ctx: fw.Ctx) -> None:
         for c in corners:
             ctx.count('corner', c)
         for st in case['steps']:
-            ctx.count('sim_steps', st[0] + (':' + st[1] if st[0] == 'end' else ''))
+            ctx.count('sim_steps', st[0] + (':' + st[1] if st[0] == 'end' else ':' + st[2] if st[0] == 'crd~' else ''))
         ctx.count('sim_rv0', str(case.get('rv0', 100)))
+        for sn in snaps:
+            for x, scan in sn.get('latest_scan', {}).items():
+                if x in sn['kinds']:
+                    plural = _sim_kinds()[x].plural
+                    watched = any(k.startswith(plural + '|') for k in sn['table'])
+                    state = ('deselected (category / short name gone)' if not scan['selected'] else
+                             'unwatchable (verb gone)' if 'watch' not in scan['verbs'] else 'selected by category / short name')
+                    ctx.count('sim_kind_state', f'{state}: {"watched" if watched else "not watched"}')
         for f in fails:
             ctx.fail(f['what'], {'layer': 'sim', **case}, observed=f['observed'], sig=f['sig'])
         if len([s for s in case['steps'] if s[0] in ('ns-', 'kind-')]) >= 1 and len(case['steps']) >= 3:
